@@ -417,6 +417,10 @@ func reifyValue(
 	if t.Kind() == reflect.Interface && t.NumMethod() == 0 {
 		reified, err := val.reify(opts.opts)
 		if err != nil {
+			if e, ok := err.(Error); ok {
+				// a setting below val failed: it is named by the error already
+				return reflect.Value{}, e
+			}
 			ctx := val.Context()
 			return reflect.Value{}, raisePathErr(err, val.meta(), "", ctx.path("."))
 		}
@@ -728,7 +732,7 @@ func castArr(opts *options, v value) ([]value, Error) {
 		}
 		unrefed, err := ref.getValue(opts)
 		if err != nil {
-			return nil, raiseMissingMsg(ref.ctx.getParent(), ref.ctx.field, err.Error())
+			return nil, raisePathErr(ErrMissing, ref.meta(), err.Error(), ref.ctx.path("."))
 		}
 		if unrefed == nil {
 			break
